@@ -7,7 +7,12 @@ use std::io;
 use std::io::{BufRead, Read, Write};
 
 use std::cmp::Ordering;
+#[cfg(not(betaveros_noulith_verif))]
 use std::collections::{HashMap, HashSet, VecDeque};
+#[cfg(betaveros_noulith_verif)]
+use std::collections::{HashSet, VecDeque};
+#[cfg(betaveros_noulith_verif)]
+use crate::verif_hooks::{HashMap, NewExt};
 use std::fmt::Debug;
 
 use regex::Regex;
